@@ -348,7 +348,7 @@ def check(ctx):
                     for val, bb in th.term(sb2)['targets']:
                         if val == 0:
                             edges.add((sb2, bb))
-                if not edges or bi in th.reachable(0, removed_edges=edges):
+                if not edges or bi in reach_under(th, tb, {}, removed_edges=edges):
                     bad.append(bi)
             if falses and not bad:
                 ctx.ok('C09.4', ctx.site(th, falses[0][0]), 'Ok(false) only after every key has been tried')
